@@ -164,7 +164,8 @@ CHECKS = {
     category='proof',
     text='Gillespie_complex_contagion: loop invariant "rates[u] = rate_function(G,u,status,parameters) for every node with positive rate, total = their sum" established by the '
          'initialisation loop and preserved by the main loop provided the influence set covers every node whose rate changes (the documented precondition); the waiting time is drawn '
-         'with the total rate; the actor through the _ListDict_ contracts (units re-verified inside this check); the new status comes from transition_choice; rows consistent; for graphs of any order.',
+         'with the total rate; the actor through the _ListDict_ contracts (units re-verified inside this check); the new status comes from transition_choice; rows consistent; for graphs of any order. '
+         'Both return modes: with return_full_data=True the same obligations are discharged, the per-node histories start at tmin, are time-ordered and end with the current status, and exactly these are handed to the object.',
     design_ref='DESIGN.md section 5 "C15"',
     note='As C01. User call-backs modelled as uninterpreted functions of (node, status map); influence-set precondition is the documented one.',
     technique='contract-based deductive verification: loop invariants with call-back contracts, draw-site obligations, z3'),
